@@ -166,7 +166,7 @@ func (r *Run) Do(keys []string) int {
 		ncases := 1
 		var arity []int
 		for mask := 0; mask < ncases; mask++ {
-			x = newExec(r.W, fi, r.Active)
+			x = newExec(r.W, fi, r.activeFor(fi))
 			x.splitRet = r.Split
 			x.caseMask = mask
 			// decode the case number in the mixed radix given by the split arities
@@ -203,7 +203,7 @@ func (r *Run) Do(keys []string) int {
 				if o.Kind == "cover" && mask != 0 {
 					continue
 				}
-				if r.keep(o) {
+				if r.keepFor(fi, o) {
 					all = append(all, o)
 					rep.Obls++
 				}
@@ -211,7 +211,7 @@ func (r *Run) Do(keys []string) int {
 		}
 		// relational laws of this function (second pass: fragments + substitution)
 		if rep.Err == "" && len(fi.C.Laws) > 0 {
-			lx := newExec(r.W, fi, r.Active)
+			lx := newExec(r.W, fi, r.activeFor(fi))
 			lx.lawMode = true
 			clearFacts()
 			if err := lx.verifyFunc(); err != nil {
@@ -223,7 +223,7 @@ func (r *Run) Do(keys []string) int {
 				if r.Only != "" && !strings.Contains(o.Name, r.Only) {
 					continue
 				}
-				if r.keep(o) {
+				if r.keepFor(fi, o) {
 					all = append(all, o)
 					rep.Obls++
 				}
@@ -441,4 +441,62 @@ func bindingFailure(w *World, fi *FuncInfo, key string, err error) *Obligation {
 		o.Pos = w.Fset.Position(fi.Fn.Pos())
 	}
 	return o
+}
+
+// activeFor: the property tags active while function fi is verified: the property of this check, plus every
+// property Y for which fi carries a clause tagged [Y,*]. Such a clause is assumed by every check; to be sure a
+// check never rests on an unproved assumption about a function it covers, each check that covers fi proves fi's
+// [Y,*] clauses too (with fi's [Y] support clauses switched on).
+func (r *Run) activeFor(fi *FuncInfo) map[string]bool {
+	if r.Active == nil {
+		return nil
+	}
+	out := map[string]bool{}
+	for k, v := range r.Active {
+		out[k] = v
+	}
+	add := func(cs []*Clause) {
+		for _, c := range cs {
+			star := false
+			for _, t := range c.Tags {
+				if t == "*" {
+					star = true
+				}
+			}
+			if star {
+				for _, t := range c.Tags {
+					if t != "*" && t != "leaf" {
+						out[t] = true
+					}
+				}
+			}
+		}
+	}
+	add(fi.C.Requires)
+	add(fi.C.Ensures)
+	for _, lc := range fi.C.Loops {
+		add(lc.Invs)
+	}
+	return out
+}
+
+func (r *Run) keepFor(fi *FuncInfo, o *Obligation) bool {
+	if o.Kind == "cover" || r.Active == nil || len(o.Tags) == 0 {
+		return true
+	}
+	act := r.activeFor(fi)
+	for _, t := range o.Tags {
+		if act[t] {
+			return true
+		}
+	}
+	star, other := false, false
+	for _, t := range o.Tags {
+		if t == "*" {
+			star = true
+		} else {
+			other = true
+		}
+	}
+	return star && !other
 }
